@@ -20,6 +20,7 @@ fn main() {
         let path: Vec<String> = j["path"].as_array().map(|a| a.iter().map(|x| x.as_str().unwrap_or("").to_string()).collect()).unwrap_or_default();
         bfs::REPLAY.set((name, init, path)).ok();
     }
+    e3::SEED.store(seed, std::sync::atomic::Ordering::Relaxed);
     session::install_quiet_panic_hook();
     let mut rep = Report { prop: prop.clone(), tier: tier.clone(), ..Default::default() };
     match prop.as_str() {
